@@ -2,19 +2,19 @@
 from props import answers
 
 THEOREMS = ["InfOCF.C04_main", "InfOCF.C04_min_form", "InfOCF.C04_edges", "InfOCF.C04_refuse", "InfOCF.C04_allpairs_wrong", "InfOCF.algLex_eq_specLex"]
-RULE = ("random strongly consistent bases x 6 queries x {rc2, z3}; non-trivial = contingent query and >= 2 layers; distinct by (base, query)")
+RULE = ("random strongly consistent bases (half of them defaults-with-exceptions structures with several incomparable minimal falsification sets per layer) x 6 queries x {rc2, z3}; non-trivial = contingent query, >= 2 layers and a tie at the top layer; distinct by (base, query)")
 ASSUMPTIONS = ["world enumeration bounds the correspondence to <= 7 atoms; the theorem has no bound"]
 CONFIGS = [("lex_inf", "rc2"), ("lex_inf", "z3")]
 
 
 def nontrivial(case, info, qk, row):
-    return qk == "contingent" and (info["layers"] or 0) >= 2
+    return qk == "contingent" and (info["layers"] or 0) >= 2 and len(row) > 4 and row[4] >= 1
 
 
 def run(ctx):
     count = 200 if ctx.tier == "quick" else 4000
     cases = answers.load_corpus("C04")
-    cases += answers.gen_cases(ctx, count, (1, 6), (1, 7), [False])
+    cases += answers.gen_cases(ctx, count, (1, 6), (1, 7), [False], ties=0.5)
     answers.run_cases(ctx, cases, CONFIGS, nontrivial)
 
 
